@@ -18,6 +18,7 @@ import (
 	"math"
 	"os"
 	"reflect"
+	"runtime/debug"
 	"sort"
 	"strconv"
 	"strings"
@@ -318,6 +319,20 @@ func dump(v reflect.Value) interface{} {
 	return fmt.Sprintf("?unsupported kind %s", v.Kind())
 }
 
+// shortStack keeps the frames of generated code from the panic's stack.
+func shortStack() string {
+	var out []string
+	for _, l := range strings.Split(string(debug.Stack()), "\n") {
+		if strings.Contains(l, "/gen/") && !strings.Contains(l, "zz_verif") {
+			out = append(out, strings.TrimSpace(l))
+			if len(out) >= 4 {
+				break
+			}
+		}
+	}
+	return strings.Join(out, " | ")
+}
+
 func errStr(err error) interface{} {
 	if err == nil {
 		return nil
@@ -389,6 +404,7 @@ func handle(req map[string]interface{}) (resp map[string]interface{}) {
 	defer func() {
 		if r := recover(); r != nil {
 			resp["panic"] = fmt.Sprint(r)
+			resp["panic_stack"] = shortStack()
 		}
 	}()
 	op, _ := req["op"].(string)
